@@ -56,7 +56,9 @@ def strategy_(draw, tier):
     return {'t': t, 'dc': draw(_dc_value(3))}
   recipe = draw(dags.dag(
       max_nodes=9, min_nodes=2, tags=True, bts=('Config', 'Config', 'Partial'),
-      kinds=['B', 'B', 'list', 'tuple', 'dict', 'Bmut', 'Bmut1', 'Bmut1', 'Bmutnest', 'Bpo', 'Bpo3', 'Bdc', 'TV', 'Bempty', 'ltuple', 'ntuple'],
+      kinds=['B', 'B', 'list', 'tuple', 'dict', 'Bmut', 'Bmut1', 'Bmut1', 'Bmutnest', 'Bpo', 'Bpo3', 'Bdc', 'TV', 'Bempty', 'ltuple', 'ntuple',
+             # further node kinds of the shared generator that this check's oracle handles (each once)
+             'ddict', 'set', 'fset', 'nt', 'dcinst'],
       fns=['things:f2', 'things:h1', 'things:Base'], root_kinds=['B', 'Bmut', 'Bmut1', 'Bpo', 'Bpo3', 'Bdc', 'list'],
       p_alias=0.8, allow_copyof=False))
   if draw(st.floats(0, 1)) < (0.6 if t.startswith('materialize_tags') else 0.15):
